@@ -259,6 +259,15 @@ macro_rules! define_lagrange { ($name:ident, $n0:ident, $n1:ident, $n2:ident, $n
         // there is room for the sign bit.
         let mut first = true;
 
+        // As in the second loop below, the first loop must also detect the
+        // end of the algorithm through a "stuck" value of sp: if the
+        // lattice has one short vector and one very long vector (e.g.
+        // k = 2^e with 2^e slightly above the target length), then the
+        // basis is fully reduced while nu is still too large to switch to
+        // the second loop, and nv never reaches the target bit length.
+        let mut last_bl_sp = u32::MAX;
+        let mut stuck = 0u32;
+
         // First algorithm loop, to shrink values enough to fit in type $n2.
         loop {
             // If u is smaller than v, then swap u and v.
@@ -283,6 +292,17 @@ macro_rules! define_lagrange { ($name:ident, $n0:ident, $n1:ident, $n2:ident, $n
             // Compute this amount s = len(sp) - len(nv)
             // (if s < 0, it is replaced with 0).
             let bl_sp = sp.bitlength();
+            if !first {
+                if bl_sp >= last_bl_sp {
+                    stuck += 1;
+                    if stuck > 3 {
+                        return (v0.0, v1.0);
+                    }
+                } else {
+                    last_bl_sp = bl_sp;
+                    stuck = 0;
+                }
+            }
             let mut s = bl_sp.wrapping_sub(bl_nv);
             s &= !(((s as i32) >> 31) as u32);
 
